@@ -1,6 +1,6 @@
 (* C02 — Wire format of every message kind is exact and accepts any legal encoding.
    Statements only; every proof is [exact <lemma>]. *)
-From FMP Require Import Base.Bytes Model.Generated Model.Msgpack Model.Frame Proofs.MsgpackProofs.
+From FMP Require Import Base.Bytes Model.Generated Model.Msgpack Model.Frame Proofs.MsgpackProofs Proofs.FrameProofs.
 Open Scope N_scope.
 
 (* every legal msgpack encoding (any integer / string / container width, chosen by any choice list) of a
@@ -23,6 +23,27 @@ Proof. exact dec_string_opts. Qed.
 Theorem C02_encoder_emits_bytes : forall v, wf_val v = true -> bytes_ok (enc v) = true.
 Proof. exact enc_bytes_ok. Qed.
 
+(* the five layouts, byte for byte: [0,seq,method,arg(,tags)] [4,seq,ctype,method,arg(,tags)] [1,seq,err,res]
+   [2,method,arg(,tags)] [3,seq,method], fixarray header 0x90+n, preceded by the msgpack integer of the content length *)
+Theorem C02_frame_layout_exact : forall m, enc (frame_val m) = spec_bytes m.
+Proof. exact frame_layout_exact. Qed.
+
+Theorem C02_encode_frame_exact : forall max m,
+    (Z.of_N (len (spec_bytes m)) <= max)%Z ->
+    encode_frame max m = Some (enc_int (Z.of_N (len (spec_bytes m))) ++ spec_bytes m).
+Proof. exact encode_frame_exact. Qed.
+
+(* conversely: any such message, with any legal width for every integer, string and container inside it and for the
+   length prefix, and any number of extra trailing elements, is decoded to the same type, seqno, method, argument,
+   error, result and tags *)
+Theorem C02_decode_any_legal : forall e max m extra ch p rest,
+    wf_msg m = true -> forallb wf_val extra = true -> extras_ok m extra = true -> env_accepts e m = true ->
+    (length (frame_elems m ++ extra) <= 15)%nat ->
+    (Z.of_N (len (content_alt ch m extra)) <= max)%Z -> (max <= 2147483647)%Z ->
+    In p (int_opts (Z.of_N (len (content_alt ch m extra)))) ->
+    next_frame e max (p ++ content_alt ch m extra ++ rest) = (outcome_of_msg m, rest).
+Proof. exact decode_any_legal. Qed.
+
 (* non-vacuity: a nested value, a non-canonical encoding of it, and its decoding *)
 Definition ex_v := VArr [VInt 0; VInt 300; VStr [112; 46; 109]; VMap [(VStr [107], VInt (-5))]].
 Example ex_wf : wf_val ex_v = true. Proof. vm_compute. reflexivity. Qed.
@@ -34,3 +55,6 @@ Print Assumptions C02_mp_roundtrip_canonical.
 Print Assumptions C02_int_field_any_width.
 Print Assumptions C02_string_field_any_width.
 Print Assumptions C02_encoder_emits_bytes.
+Print Assumptions C02_frame_layout_exact.
+Print Assumptions C02_encode_frame_exact.
+Print Assumptions C02_decode_any_legal.
